@@ -11,6 +11,9 @@
 //   - the raised message names the subject                                           (clause names-subject)
 // M (model tie): the describer's structured result (px.VerifDescribe: class and path of every mismatch)
 // and the outcome of AssertType / AssertInstance are compared with coq/Model/Describe.v by vm_compute.
+// ext.go: the same clauses on the types outside the lattice universe (Callable with parameters, return type
+// and block, Init, Like, TypeReference, Iterator, Runtime, aliases, Object), and the model tie of the
+// Callable describer (coq/Model/DescribeCallable.v, px.VerifDescribeTyped).
 package main
 
 import (
@@ -42,7 +45,11 @@ func main() {
 		"generic pool + boundary witnesses of every pool type + hashes with unusual keys + types as values. ALL ordered type pairs and all " +
 		"(type, value) pairs are evaluated on the implementation. A type pair is non-trivial when it is not assignable, neither side is " +
 		"Any/Unit and the expected type has a describer of its own (Variant, Struct, Hash, Tuple, Array, Optional, Enum, Pattern); " +
-		"distinct = distinct (expected, actual) recipes"
+		"distinct = distinct (expected, actual) recipes. Extended pool (ext.go): Callable with every combination of parameters tuple / " +
+		"return type / block (bounded-exhaustive family + seeded random over random lattice types, blocks to depth 2), Init, Like, " +
+		"TypeReference, Iterator, Iterable, Runtime, aliases of every described kind, Object and the parsed parameterised types, each also " +
+		"below Optional/NotUndef/Type/Variant/Array/Tuple/Hash/Struct/Callable; all ordered pairs of it and both directions against a sample " +
+		"of the lattice pool; non-trivial there: not assignable, expected not Any, actual neither Any nor Unit"
 	pcore.Do(func(c px.Context) {
 		if cfg.Replay != "" {
 			replay(cfg, res)
